@@ -18,6 +18,10 @@ thread_local! {
     static INV_A: Cell<u64> = const { Cell::new(0) };
     static INV_C: Cell<u64> = const { Cell::new(0) };
     static INV_BROKEN: Cell<Option<(u64, u64)>> = const { Cell::new(None) };
+    // most bytes any source of this run has delivered so far (several parsers may re-read the same input)
+    static MAX_DELIVERED: Cell<u64> = const { Cell::new(0) };
+    static TRACE: Cell<bool> = const { Cell::new(false) };
+    static IN_TRACE: Cell<bool> = const { Cell::new(false) };
 }
 
 #[inline]
@@ -37,6 +41,10 @@ fn on_alloc(size: usize) {
             b.set(size)
         }
     });
+    if size >= 48 * 1024 && TRACE.try_with(|t| t.get()).unwrap_or(false) && !IN_TRACE.try_with(|t| t.replace(true)).unwrap_or(true) {
+        eprintln!("ALLOC {size} bytes\n{}", std::backtrace::Backtrace::force_capture());
+        let _ = IN_TRACE.try_with(|t| t.set(false));
+    }
 }
 
 #[inline]
@@ -89,6 +97,8 @@ pub fn mark() {
     CUM.with(|c| c.set(0));
     BIGGEST.with(|b| b.set(0));
     INV_BROKEN.with(|b| b.set(None));
+    MAX_DELIVERED.with(|m| m.set(0));
+    TRACE.with(|t| t.set(std::env::var("VERIF_ALLOC_TRACE").is_ok()));
 }
 
 pub fn account() -> Account {
@@ -109,6 +119,7 @@ pub fn arm(a: u64, c: u64) {
 
 pub fn disarm() -> Option<(u64, u64)> {
     ARMED.with(|x| x.set(false));
+    TRACE.with(|t| t.set(false));
     INV_BROKEN.with(|b| b.get())
 }
 
@@ -118,6 +129,11 @@ pub fn on_seam(delivered: u64) {
     if !ARMED.with(|x| x.get()) {
         return;
     }
+    let delivered = MAX_DELIVERED.with(|m| {
+        let v = m.get().max(delivered);
+        m.set(v);
+        v
+    });
     let peak = PEAK.with(|p| p.get()).max(0) as u64;
     let bound = INV_A.with(|x| x.get()).saturating_mul(delivered).saturating_add(INV_C.with(|x| x.get()));
     if peak > bound {
